@@ -6,6 +6,8 @@
        ; program.tau_star()                      (Model/TauStar.v;   None = overflow panic, F11)
            .replace_placeholders(..)             (Model/Outline.v)
            .completion(inputs).expect(..)        (Model/Completion.v; None = panic)
+           + the empty completed definitions of the missing output predicates
+                                                 (Model/External.v missing_output_definitions; /repo <COMMIT-F17>)
        ; [INTUITIONISTIC, HT, CLASSIC].concat().compose(), apply_fixpoint on every formula
                                                  (Model/SimplIntuit.v, SimplClassic.v, StrategyCls.v;
                                                   panics of the classic rewrites visible)
@@ -76,7 +78,10 @@ Definition translate_status (fuel : nat) (t : ext_task) (m : placeholders) (p : 
   | Some g =>
       match completion (rp_theory m g) (ug_input_predicates (et_user_guide t)) with
       | None => TPanic
-      | Some th => if et_simplify t then simplify_status fuel th else TDone
+      | Some th =>
+          if et_simplify t
+          then simplify_status fuel (th ++ missing_output_definitions (ug_output_predicates (et_user_guide t)) th)
+          else TDone
       end
   end.
 
